@@ -157,6 +157,12 @@ ExplainsF(r) ==
     [] r.e = "ScaleV" -> Good(r) /\ ScaleAgrees(r.a, r.b, r.num, r.den)
     [] r.e = "ScaleG" -> Good(r) /\ Len(r.a) = N /\ Len(r.b) = N /\ \A i \in 1..N : ScaleAgrees(r.a[i], r.b[i], r.num, r.den)
     [] r.e = "ScaleH" -> Good(r) /\ HasHessian /\ Len(r.a) = N /\ Len(r.b) = N /\ \A i \in 1..N : ScaleAgrees(r.a[i], r.b[i], r.num, r.den)
+    \* kappa enters as kappa_r kappa_{r+dr} (documented formulas; PLS: kappa_r penalty_r): doubling the kappa image
+    \* multiplies value and gradient by 4 (PLS: 2); "if kappa is not set ... use 1 for all kappa's"
+    [] r.e = "KScale" -> /\ Good(r) /\ c.hasKappa /\ Len(r.ga) = N /\ Len(r.gb) = N
+                         /\ LET f == IF c.prior = "pls" THEN 2 ELSE 4 IN
+                            ScaleAgrees(r.va, r.vb, f, 1) /\ \A i \in 1..N : ScaleAgrees(r.ga[i], r.gb[i], f, 1)
+    [] r.e = "KOnes" -> Good(r) /\ ~c.hasKappa /\ r.va = r.vb /\ r.ga = r.gb
     \* "the gradient vanishes for uniform images" (recorded at 2^-30: every component is below 2^-31)
     [] r.e = "Uniform" -> Good(r) /\ r.k = 30 /\ r.n = N /\ r.nz = <<>>
     \* the gradient at i does not change when a voxel outside its stencil changes
